@@ -583,7 +583,10 @@ pub fn gen_compress_case(rng: &mut Rng, big: bool) -> CompressCase {
 pub fn gen_comp(rng: &mut Rng) -> Option<(u32, u32)> {
     if rng.chance(2, 5) { return None; }
     let t = *rng.pick(&[3u32, 3, 2, 1]);
-    let l = if rng.chance(1, 6) { rng.range(1, max_level(t) as u64) } else { rng.range(1, 6.min(max_level(t)) as u64) } as u32;
+    // (the highest levels set up very large windows per chunk: with the tiny chunks of the random configurations that
+    //  takes minutes; they are exercised by dedicated cases with larger chunks in clirt and clihuge)
+    let cap = match t { 2 => 12, 1 => 6, _ => 9 };
+    let l = if rng.chance(1, 6) { rng.range(1, cap.min(max_level(t)) as u64) } else { rng.range(1, 6.min(max_level(t)) as u64) } as u32;
     Some((t, l))
 }
 
